@@ -938,3 +938,34 @@ def _SumLO(it, ctx, a, k):
         r = it.binop(ctx, "+", r, x)
     r = as_tensor(r).copy(is_linop=True, linop_class="SumLinearOperator")
     return r
+
+
+
+@op("linear_operator.operators.InterpolatedLinearOperator")
+def _InterpLO(it, ctx, a, k):
+    """InterpolatedLinearOperator(base, left_idx, left_vals, right_idx, right_vals) with ONE interpolation point per row and unit values (the
+    form IndexKernel uses): entry (i, j) = base[left_idx[i, 0], right_idx[j, 0]]; other forms are outside the supported subset"""
+    base = k.get("base_linear_op", a[0] if a else None)
+    li = k.get("left_interp_indices", a[1] if len(a) > 1 else None)
+    lv = k.get("left_interp_values", a[2] if len(a) > 2 else None)
+    ri = k.get("right_interp_indices", a[3] if len(a) > 3 else None)
+    rv = k.get("right_interp_values", a[4] if len(a) > 4 else None)
+    if lv not in (None, NONE) or rv not in (None, NONE):
+        raise Undecided("InterpolatedLinearOperator with interpolation values")
+    base, li, ri = as_tensor(base).frozen(), as_tensor(li).frozen(), as_tensor(ri).frozen()
+    if not (E._dim_is_one(ctx, li.dims[-1]) and E._dim_is_one(ctx, ri.dims[-1])):
+        raise Undecided("InterpolatedLinearOperator with several interpolation points per row")
+    nb = len(li.dims) - 2
+    lead = li.dims[:nb]
+    nl = sum(len(d.atoms) for d in lead)
+    bb = len(base.dims) - 2
+    T_ = base.dims[-1].size
+
+    def elem(idx):
+        b, i, j = list(idx[:nl]), idx[nl], idx[nl + 1]
+        r = li.elem(b + [i, z3.IntVal(0)])
+        c_ = ri.elem((b if len(ri.dims) - 2 == nb else []) + [j, z3.IntVal(0)])
+        ctx.assume(z3.And(r >= 0, r < T_, c_ >= 0, c_ < T_), "interpolation indices are valid positions of the base operator")
+        return base.elem((b[len(b) - bb:] if bb else []) + [r, c_])
+
+    return VTensor(lead + [li.dims[-2], ri.dims[-2]], elem, "real", True, linop_class="InterpolatedLinearOperator")
